@@ -930,6 +930,9 @@ impl<DB: Database> Inspector<DB> for Monitor {
             if let Some(fh) = &self.force_halt {
                 if fh.at_step + 1 == self.tx_steps {
                     interp.instruction_result = match fh.result.as_str() {
+                        // (EOF init code cannot end in STOP - validation forbids it - so a frame
+                        // that creates an EOF contract is made to revert instead)
+                        "stop" if interp.is_eof_init => InstructionResult::Revert,
                         "stop" => InstructionResult::Stop,
                         "revert" => InstructionResult::Revert,
                         _ => InstructionResult::OutOfGas,
